@@ -42,14 +42,28 @@ func runC20(c *Ctx) {
 		c.undecided("R20a", "anchor:query.Builder/Context/ContextFn", token.NoPos, "libs/query anchors not found")
 		return
 	}
+	// named functions used as filter callbacks: `query.ContextFn(logsFilterContext)`
+	convertedToContextFn := map[*ssa.Function]bool{}
+	ctxFnNamed := c.Named(pkgQuery, "ContextFn")
+	for _, fn := range c.RepoFuncs() {
+		for _, b := range fn.Blocks {
+			for _, ins := range b.Instrs {
+				if ct, ok := ins.(*ssa.ChangeType); ok && namedOf(ct.Type()) == ctxFnNamed {
+					if f, ok := ct.X.(*ssa.Function); ok {
+						convertedToContextFn[f] = true
+					}
+				}
+			}
+		}
+	}
 	// ---- R20a
 	nCb := 0
 	for _, fn := range c.RepoFuncs() {
 		if !isContextFnSig(c, fn.Signature) || len(fn.Blocks) == 0 || fn.Synthetic != "" {
 			continue
 		}
-		if fn.Parent() == nil && fn.Signature.Recv() != nil {
-			continue // methods are not convertible to query.ContextFn as such
+		if fn.Parent() == nil && !convertedToContextFn[fn] {
+			continue // a named function is a filter callback only where it is converted to query.ContextFn
 		}
 		if strings.HasPrefix(fnPkgPath(fn), libsPath) {
 			continue
@@ -227,7 +241,45 @@ func ruleR20c(c *Ctx, tc *taintCfg, build *types.Func) {
 	paramDirty := map[*ssa.Parameter]int{} // 0 unknown, 1 clean, 2 dirty
 	var paramIsClean func(p *ssa.Parameter, depth int) bool
 	var valueIsClean func(fn *ssa.Function, user ssa.Instruction, v ssa.Value, depth int) bool
+	var fieldIsClean func(f *types.Var) bool
 	results := map[*ssa.Function]*taintResult{}
+	// fieldIsClean: an unexported string field of a struct of package ledgerstore whose every store, anywhere in the
+	// package, writes a clean value (`filter.where` assigned from Builder.Build only)
+	fieldState := map[*types.Var]int{} // 1 clean, 2 dirty
+	fieldIsClean = func(f *types.Var) bool {
+		f = f.Origin()
+		if st, ok := fieldState[f]; ok {
+			return st == 1
+		}
+		fieldState[f] = 1 // optimistic inside a cycle
+		if f.Exported() || f.Pkg() == nil || f.Pkg().Path() != pkgLedgerstore {
+			fieldState[f] = 2
+			return false
+		}
+		if bt, ok := f.Type().Underlying().(*types.Basic); !ok || bt.Info()&types.IsString == 0 {
+			fieldState[f] = 2
+			return false
+		}
+		for _, fn := range c.FuncsIn(pkgLedgerstore) {
+			for _, b := range fn.Blocks {
+				for _, ins := range b.Instrs {
+					st, ok := ins.(*ssa.Store)
+					if !ok {
+						continue
+					}
+					fa, ok := st.Addr.(*ssa.FieldAddr)
+					if !ok || !sameField(fieldOfAddr(fa), f) {
+						continue
+					}
+					if !valueIsClean(fn, st, st.Val, 1) {
+						fieldState[f] = 2
+						return false
+					}
+				}
+			}
+		}
+		return true
+	}
 	analyse := func(fn *ssa.Function) *taintResult {
 		if r, ok := results[fn]; ok {
 			return r
@@ -242,9 +294,12 @@ func ruleR20c(c *Ctx, tc *taintCfg, build *types.Func) {
 				return !freeVarIsClean(c, x, valueIsClean)
 			case *ssa.UnOp:
 				if f, _ := anyFieldRead(x); f != nil {
-					return true // struct fields: not provably constant
+					return !fieldIsClean(f) // struct fields: clean only when every writer stores a clean value
 				}
 			case *ssa.Field:
+				if f, _ := anyFieldRead(x); f != nil {
+					return !fieldIsClean(f)
+				}
 				return true
 			}
 			return false
